@@ -58,40 +58,33 @@ Proof. exact position_clamp_proof. Qed.
 Print Assumptions position_clamp.
 
 (* The caret.  The context is a first line l1 (no line feed in it), a line feed, n spaces and '^'.
-   In all three elision regimes and without elision, for line numbers below 100000: the character of the unit
-   at the offset, as displayed (disp: itself if graphic, else U+00B7), is at printed index n of l1; when the
-   offset is at the end of its line (on \n, \r, \r\n or at the end of the text) the caret is just past l1. *)
+   For EVERY line number (the printed width of the number is modelled exactly), in all three elision regimes
+   and without elision: the character of the unit at the offset, as displayed (disp: itself if graphic, else
+   U+00B7), is at printed index n of l1; when the offset is at the end of its line (on \n, \r, \r\n, U+2028,
+   U+2029 or at the end of the text) the caret is just past l1. *)
 Theorem context_caret :
   forall (graphic : Z -> bool) cps off pre cur post line col ctx,
     Forall cp_ok cps -> located cps off pre cur post ->
-    position graphic (bytes cps) off = Done (line, col, ctx) -> line < 100000 ->
+    position graphic (bytes cps) off = Done (line, col, ctx) ->
     exists l1 n, ctx = l1 ++ 10 :: repeat 32 n ++ [94] /\ ~ In 10 l1 /\ caret_under graphic cur l1 n.
 Proof. exact context_caret_proof. Qed.
 Print Assumptions context_caret.
 
-(* From line 100000 on the caret is NOT under the character: "%5d" is assumed 5 wide.  Witness: 99999 line
-   feeds then "ab", offset of 'b': the context is "100000: ab\n        ^", the caret is under 'a'. *)
-Theorem context_caret_refuted :
-  exists graphic cps off pre cur post line col ctx,
-    Forall cp_ok cps /\ located cps off pre cur post /\
-    position graphic (bytes cps) off = Done (line, col, ctx) /\ 100000 <= line /\
-    forall l1 n, ctx = l1 ++ 10 :: repeat 32 n ++ [94] -> ~ In 10 l1 -> ~ caret_under graphic cur l1 n.
-Proof. exact context_caret_refuted_proof. Qed.
-Print Assumptions context_caret_refuted.
-
-(* What is shown.  For a valid text the printed line is "%5d: ", then a window [lo,hi) of the shown line L
-   (the current line before the offset followed by everything up to the next \n or \r — U+2028/U+2029 do
-   not end it, see the known finding), each character displayed as itself if graphic and as U+00B7 otherwise,
-   with "..." in front iff lo > 0 and behind iff hi < len L; the window contains the column; with the
-   ellipses it is at most 60 characters; a line of at most 60 characters is shown in full. *)
+(* What is shown.  The printed line is line_prefix = "%5d: ", then a window [lo,hi) of the line L the offset is
+   in (whole_line: from after the last break before the offset to the next \n, \r, \r\n, U+2028, U+2029 or
+   the end of the text), each character displayed as itself if graphic and as U+00B7 otherwise, with "..." in
+   front iff lo > 0 and behind iff hi < len L; the window contains the column; with the ellipses it is at most
+   60 characters; a line of at most 60 characters is shown in full; the caret column n is the printed index
+   of the column's character. *)
 Theorem context_window :
   forall (graphic : Z -> bool) cps off pre cur post line col ctx,
     Forall cp_ok cps -> located cps off pre cur post ->
     position graphic (bytes cps) off = Done (line, col, ctx) ->
     exists (front rear : bool) lo hi n,
-      let L := shown_line pre cur post in
-      ctx = pad_left 5 (fmt_d line) ++ [58; 32] ++ ellipsis front ++ map (disp graphic) (slice L lo hi) ++ ellipsis rear
+      let L := whole_line pre cur post in
+      ctx = line_prefix line ++ ellipsis front ++ map (disp graphic) (slice L lo hi) ++ ellipsis rear
               ++ [10] ++ repeat 32 n ++ [94] /\
+      Z.of_nat n = len (line_prefix line) + len (ellipsis front) + (col - 1 - lo) /\
       0 <= lo <= col - 1 /\ col - 1 <= hi <= len L /\ (col - 1 < len L -> col - 1 < hi) /\
       (front = true <-> 0 < lo) /\ (rear = true <-> hi < len L) /\
       len (ellipsis front) + (hi - lo) + len (ellipsis rear) <= 60 /\
@@ -99,30 +92,18 @@ Theorem context_window :
 Proof. exact context_window_proof. Qed.
 Print Assumptions context_window.
 
-(* "A context made of that line": when no U+2028/U+2029 follows the offset before the next \n or \r, a line
-   (delimited by the five break kinds) of at most 60 characters is printed exactly and in full. *)
-Theorem context_whole_line_partial :
+(* "A context made of that line": a line of at most 60 characters — delimited exactly by the terminators
+   Position counts (\n, \r, \r\n, U+2028, U+2029) or the ends of the text — is printed exactly and in full,
+   the caret under column col. *)
+Theorem context_whole_line :
   forall (graphic : Z -> bool) cps off pre cur post line col ctx,
     Forall cp_ok cps -> located cps off pre cur post ->
     position graphic (bytes cps) off = Done (line, col, ctx) ->
-    existsb (fun c => (snd c =? 8232) || (snd c =? 8233)) (line_rest (cur ++ post)) = false ->
     len (whole_line pre cur post) <= 60 ->
-    exists n, ctx = pad_left 5 (fmt_d line) ++ [58; 32] ++ map (disp graphic) (whole_line pre cur post)
-                      ++ [10] ++ repeat 32 n ++ [94].
+    ctx = line_prefix line ++ map (disp graphic) (whole_line pre cur post)
+            ++ [10] ++ repeat 32 (Z.to_nat (len (line_prefix line) + (col - 1))) ++ [94].
 Proof. exact context_whole_line_proof. Qed.
-Print Assumptions context_whole_line_partial.
-
-(* Without that hypothesis the clause is false: Position counts U+2028/U+2029 as breaks but positionContext
-   does not end the line there.  Witness "a", U+2028, "b" at offset 0: the context of line 1 is "a·b". *)
-Theorem context_whole_line_refuted :
-  exists graphic cps off pre cur post line col ctx,
-    Forall cp_ok cps /\ located cps off pre cur post /\
-    position graphic (bytes cps) off = Done (line, col, ctx) /\
-    len (whole_line pre cur post) <= 60 /\
-    forall n, ctx <> pad_left 5 (fmt_d line) ++ [58; 32] ++ map (disp graphic) (whole_line pre cur post)
-                       ++ [10] ++ repeat 32 n ++ [94].
-Proof. exact context_whole_line_refuted_proof. Qed.
-Print Assumptions context_whole_line_refuted.
+Print Assumptions context_whole_line.
 
 (* For all byte strings and offsets: between "%5d: " and the end of the first line there are at most 60
    characters (ellipses included), and every shown character is graphic or U+00B7. *)
@@ -130,7 +111,7 @@ Theorem context_length :
   forall (graphic : Z -> bool) data off line col ctx,
     position graphic data off = Done (line, col, ctx) ->
     exists (front rear : bool) body n,
-      ctx = pad_left 5 (fmt_d line) ++ [58; 32] ++ ellipsis front ++ body ++ ellipsis rear ++ [10] ++ repeat 32 n ++ [94] /\
+      ctx = line_prefix line ++ ellipsis front ++ body ++ ellipsis rear ++ [10] ++ repeat 32 n ++ [94] /\
       len (ellipsis front ++ body ++ ellipsis rear) <= 60 /\
       Forall (fun r => graphic r = true \/ r = 183) body.
 Proof. exact context_length_proof. Qed.
